@@ -20,6 +20,7 @@ import (
 	"pgregory.net/rapid"
 
 	skywaytypes "github.com/palomachain/paloma/v2/x/skyway/types"
+	vtypes "github.com/palomachain/paloma/v2/x/valset/types"
 
 	"verif/harness/bridge"
 	"verif/harness/chain"
@@ -127,6 +128,7 @@ func TestC01_BridgeConservation(t *testing.T) {
 		claims := map[uint64]claimRec{}
 		observed := map[uint64]bool{}
 		faultInEndBlockWithPending, stages2 := false, false
+		relayerWithoutAccount := false
 		batchStage := map[uint64]int{}
 
 		balance := func(a sdk.AccAddress, d string) *big.Int {
@@ -522,6 +524,26 @@ func TestC01_BridgeConservation(t *testing.T) {
 				}
 				check(t, what)
 			},
+			// validators replace their remote accounts (as MsgAddExternalChainInfoForValidator does): k of them lose the
+			// account on the bridge's chain, the others have it (back). The snapshot still lists them as relayers, so a
+			// batch build can select one whose remote address is then "not found" - a failure without an error value.
+			"relayerAccounts": func(t *rapid.T) {
+				lost := rapid.IntRange(0, len(c.Vals)).Draw(t, "withoutAccount")
+				for i, v := range c.Vals {
+					var infos []*vtypes.ExternalChainInfo
+					if i >= lost {
+						ea := chain.EthAddr(v.EthKeys[c01Chain])
+						infos = []*vtypes.ExternalChainInfo{{ChainType: "evm", ChainReferenceID: c01Chain, Address: ea.Hex(), Pubkey: ea.Bytes()}}
+					}
+					if err := c.App.ValsetKeeper.AddExternalChainInfo(b.Ctx(), v.Val(), infos); err != nil {
+						t.Fatalf("chain infos: %v", err)
+					}
+				}
+				log = append(log, fmt.Sprintf("relayerAccounts(%d without)", lost))
+				if lost > 0 {
+					relayerWithoutAccount = true
+				}
+			},
 			"changeTax": func(t *rapid.T) {
 				tk := toks[rapid.IntRange(0, len(toks)-1).Draw(t, "token")]
 				r := rapid.SampledFrom([]string{"0", "1/5", "0.0025", "7/3", "1/2"}).Draw(t, "rate")
@@ -550,6 +572,9 @@ func TestC01_BridgeConservation(t *testing.T) {
 		}
 		if stages2 {
 			labels = append(labels, "batchWith>=2Stages")
+		}
+		if relayerWithoutAccount {
+			labels = append(labels, "relayerWithoutAccount")
 		}
 		evid.Case(t.Name(), strings.Join(log, " "), faultInEndBlockWithPending || stages2, labels, func() any { return log })
 	})
